@@ -122,6 +122,27 @@ PROPS = {
         assumptions=["initial sequence numbers and connection ids are injected through the UtpEnvironment hook",
                      "distances beyond +-8192 (link MTU below 176 bytes with 1 MiB buffers) are not judged"],
     ),
+    "C11": dict(
+        level="exploration",
+        level_text="Differential runtime oracle: the library's header and message parsers against an independent BEP-29 codec written "
+                   "from the specification, over a structural grid (all 256 type/version nibble pairs x all extension chains up to "
+                   "depth 2 over ids {1,2,3,255} x lengths {0,1,3,4,5,8,9,255}, depth 3-4 sampled, 3 payload sizes, every truncation "
+                   "point), random strings, mutated packets and generated header values (serialize -> parse round trip, parse -> "
+                   "serialize -> parse with the documented 64-bit SACK normalisation); every parser call under catch_unwind. Plus "
+                   "every datagram real sockets emit in generated whole-stack executions, checked by the independent parser for "
+                   "version, payload rule, extension shape and the connection id owed to the direction.",
+        level_note="trusted base: harness/src/wire.rs (independent codec) and the statement of the normalisations (SACK truncated / "
+                   "padded to 64 bits, last SACK extension wins, close reason = extension 3 of length 4)",
+        technique="runtime monitoring: differential oracle against an independent codec over a structural grid + emitted-traffic monitor",
+        budget=dict(quick=120, thorough=1500),
+        require=["c11_strings_parsed", "c11_accepted_by_both", "c11_rejected_by_both", "c11_header_roundtrips", "c11_reserialized",
+                 "c11_emitted_datagrams_checked", "c11_emitted_conn_ids_checked"],
+        rule="grid cases = one (type nibble, version nibble) pair each with all its chains/payloads/truncations; random cases = 3000 "
+             "(quick) strings / mutations / header values each; emitted cases = generated duplex executions; non-trivial = at least "
+             "one string parsed (grid/random) or more than 3 datagrams emitted; distinct = distinct nibble pair / string-set hash / "
+             "wire trace hash",
+        assumptions=["byte-identical re-encoding is not demanded for SACK extensions that are not 8 bytes long (the code documents the 64-bit normalisation)"],
+    ),
     "C15": dict(
         level="exploration",
         level_text="Invariant monitoring of the real Cubic controller driven through the CongestionController trait with millions of "
